@@ -237,6 +237,66 @@ public:
 
   static void outputTabchar(const TabChar& v, FILE * _stdout, unsigned max_lines = (-1));
 
+  /* arithmetic helpers: integer arithmetic wraps around (two's complement),
+   * it never overflows */
+
+  static Integer wrapAdd(Integer a, Integer b) { return (Integer)((uint64_t)a + (uint64_t)b); }
+  static Integer wrapSub(Integer a, Integer b) { return (Integer)((uint64_t)a - (uint64_t)b); }
+  static Integer wrapMul(Integer a, Integer b) { return (Integer)((uint64_t)a * (uint64_t)b); }
+  static Integer wrapNeg(Integer a) { return (Integer)((uint64_t)0 - (uint64_t)a); }
+  /* divisor must not be zero */
+  static Integer wrapDiv(Integer a, Integer b) { return (b == -1 ? wrapNeg(a) : a / b); }
+  static Integer wrapMod(Integer a, Integer b) { return (b == -1 ? 0 : a % b); }
+  /* shifts fill with zeros; a negative displacement shifts to the other
+   * direction; 64 bits or more shift everything out */
+  static Integer shiftLeft(Integer a, Integer n)
+  {
+    if (n <= -64 || n >= 64)
+      return 0;
+    if (n < 0)
+      return (Integer)((uint64_t)a >> (unsigned)(-n));
+    return (Integer)((uint64_t)a << (unsigned)n);
+  }
+  static Integer shiftRight(Integer a, Integer n)
+  {
+    if (n <= -64 || n >= 64)
+      return 0;
+    return shiftLeft(a, -n);
+  }
+  /* integer power: exact modulo 2^64 for a non negative exponent, else the
+   * reciprocal truncated toward zero; zero cannot be raised to a negative power */
+  static Integer powInteger(Integer a, Integer b)
+  {
+    if (b < 0)
+    {
+      if (a == 0)
+        throw RuntimeError(EXC_RT_DIVIDE_BY_ZERO);
+      if (a == 1)
+        return 1;
+      if (a == -1)
+        return ((b & 1) ? -1 : 1);
+      return 0;
+    }
+    uint64_t r = 1, x = (uint64_t)a;
+    uint64_t e = (uint64_t)b;
+    while (e)
+    {
+      if (e & 1)
+        r *= x;
+      x *= x;
+      e >>= 1;
+    }
+    return (Integer)r;
+  }
+  /* decimal to integer by truncation; a value that does not fit (or is not a
+   * number) fails with the error out-of-range */
+  static Integer toInteger(Numeric d)
+  {
+    if (!(d >= -9223372036854775808.0 && d < 9223372036854775808.0))
+      throw RuntimeError(EXC_RT_OUT_OF_RANGE);
+    return (Integer)d;
+  }
+
   static Value parseLiteral(const std::string& text);
   static Value parseInteger(const std::string& text, int base = 10);
   static Value parseNumeric(const std::string& text);
